@@ -762,7 +762,7 @@ package log
 //@   ensures[C04,C06:block-waits-and-enqueues] c.BufferFullPolicy == 0 ==> enq == tsnoc(old(enq), 9, c.buf, ifval(v), iftag(v), "") && deq == old(deq) && c.discardCounter == old(c.discardCounter)
 //@   ensures[C04,C06:discard-oldest-keeps-the-arriving-item] c.BufferFullPolicy == 2 ==> enq == tsnoc(old(enq), 9, c.buf, ifval(v), iftag(v), "") && blocked == old(blocked) && c.discardCounter - old(c.discardCounter) == tlen(deq) - tlen(old(deq))
 //@   ensures[C03:event-handed-over] dyn(v, *Event) ==> pooled[ifval(v)]
-//@   loop 1 invariant[C06:not-yet-enqueued] !exit && enq == old(enq) && blocked == old(blocked) && !closed[c.buf]
+//@   loop 1 invariant[C06:not-yet-enqueued] !local(exit, false) && enq == old(enq) && blocked == old(blocked) && !closed[c.buf]
 //@   loop 1 invariant[C04:drops-counted] c.discardCounter - old(c.discardCounter) == tlen(deq) - tlen(old(deq))
 //@   loop 1 invariant[C03:still-owned] dyn(v, *Event) ==> !pooled[ifval(v)]
 
